@@ -1030,10 +1030,12 @@ class Steward():
         data['data'] = copy.copy(self.requestant.data)  # make copy
 
         try:
-            msg = self.responder.build(status=200, data=data)
+            # fresh headers: the responder is reused for every request of the
+            # connection and build stores server, date and content-length in them
+            msg = self.responder.build(status=200, headers=help.Hict(), data=data)
         except RecursionError:  # parsed data nested too deep to serialize one level down
             data['data'] = None  # same as when dictify finds it too deep to parse
-            msg = self.responder.build(status=200, data=data)
+            msg = self.responder.build(status=200, headers=help.Hict(), data=data)
         self.remoter.tx(msg)
         self.waited = not self.responder.ended
 
